@@ -23,6 +23,10 @@ var (
 	// ErrMissingAddrs indicates that no subnets were provided with addresses to select from. This
 	// is only valid for phantomHkdfMinVersion and newer.
 	ErrMissingAddrs = errors.New("no valid addresses specified to select")
+
+	// ErrNoWeightedSubnets indicates that a weighted selection was requested from a set of subnets
+	// whose weights sum to zero.
+	ErrNoWeightedSubnets = errors.New("no subnets with non-zero weight to select from")
 )
 
 // getSubnetsHkdf returns EITHER all subnet strings as one composite array if
@@ -53,6 +57,12 @@ func getSubnetsHkdf(sc genericSubnetConfig, seed []byte, weighted bool) ([]*phan
 
 			totWeight += int64(weight)
 			choices = append(choices, cjSubnet)
+		}
+
+		// rand.Int panics on a non-positive bound: with no weight to distribute there is nothing
+		// to choose from.
+		if totWeight <= 0 {
+			return nil, ErrNoWeightedSubnets
 		}
 
 		// Sort choices ascending
